@@ -162,11 +162,11 @@ Proof. exact print_no_markup_nonvacuous. Qed.
    Text, Padding, Panel, Align, Constrain, Styled, RenderGroup, Rule, Bar, ProgressBar, Table, Columns, Tree,
    objects without __rich_measure__ and __rich__ casts, nested to any depth, at EVERY width (W < 1 and widths
    far below the structural minimum included), every console width and inherited options.
-   Option domain `valid`: no condition at all except on tables -- non-negative padding, no table min_width,
-   at least one column, columns without fixed width / min_width / no_wrap, max_width >= 1, ratio >= 1
-   (C01's table domain without its `width=None` clause).  Outside it (Table(min_width=), Column(width=,
-   min_width=, no_wrap=True)) the outcome classes are compared on generated trees at every width 1..200;
-   missing there: calc_widths_total for such columns (measure_column >= 0 and the bound lemmas of LayoutP8). *)
+   Option domain `valid`: no condition at all except on tables -- non-negative padding, at least one column,
+   columns without fixed width / min_width / no_wrap, max_width >= 1, ratio >= 1 (Table(width=) and
+   Table(min_width=) are inside).  Outside it (Column(width=, min_width=, no_wrap=True)) the outcome classes are
+   compared on generated trees at every width 1..200; missing there: calc_widths_x_total / _bound for columns
+   that are not col_free (measure_column >= 0 and the stage lemmas of LayoutP10 assume col_free). *)
 Theorem C14_render_total : forall cf r W, valid r = true -> exists ls, render cf r W = Ok ls.
 Proof. exact render_total. Qed.
 Print Assumptions C14_render_total.
@@ -181,11 +181,13 @@ Example C14_render_nonvacuous :
 Proof. exact render_total_nonvacuous. Qed.
 
 (* the pieces: the table solver never fails at ANY budget (ratio kernels under their guards, collapse
-   terminates, re-measure, padding) ... *)
-Theorem C14_calc_widths_total : forall o cols M,
-  Table.o_minw o = None -> cols <> [] -> Forall col_free cols -> pad_ok o ->
-  exists ws, Table.calc_widths false false o cols M = Ok ws.
-Proof. exact calc_widths_total. Qed.
+   terminates, re-measure, padding), for both variants `fm` of the flexible minimum of ratio columns
+   (fm = false: rich 9.10.0; fm = true: fixes/C07_ratio_column_minimum.diff), any table min_width, and every width
+   it answers is >= 1 (cites C01's LayoutP10.calc_widths_x_total / calc_widths_x_bound) ... *)
+Theorem C14_calc_widths_total : forall fm o cols M,
+  cols <> [] -> Forall col_free cols -> pad_ok o ->
+  exists ws, Table.calc_widths_x fm false false o cols M = Ok ws /\ length ws = length cols /\ Forall (fun w => 1 <= w) ws.
+Proof. exact calc_widths_x_total_spec. Qed.
 Print Assumptions C14_calc_widths_total.
 
 (* ... the Columns width search `while column_count > 1` terminates within its fuel with a count >= 1 and the
